@@ -240,3 +240,157 @@ def main(tier, t0):
         'NOT decided: the bucket method\'s digit extraction, running-sum reduction and inter-window doublings (data-dependent indices and loop bounds).',
         ['rustc MIR', 'group-operation contracts (C01)'],
         ['narrow claim; bucket arithmetic is out of reach of this family'])
+
+
+# ---------------------------------------------------------------- bucket reduction (running sums)
+def _solve_in_span(target, gens):
+    """Is the linear form `target` in the rational span of `gens`? (tiny Gaussian elimination)"""
+    from fractions import Fraction
+    atoms = sorted(set(target.t) | set(a for g in gens for a in g.t))
+    rows = [[Fraction(g.t.get(a, 0)) for a in atoms] for g in gens]
+    tgt = [Fraction(target.t.get(a, 0)) for a in atoms]
+    piv = []
+    r = 0
+    for c in range(len(atoms)):
+        pr = next((i for i in range(r, len(rows)) if rows[i][c] != 0), None)
+        if pr is None:
+            continue
+        rows[r], rows[pr] = rows[pr], rows[r]
+        inv = rows[r][c]
+        rows[r] = [x / inv for x in rows[r]]
+        for i in range(len(rows)):
+            if i != r and rows[i][c] != 0:
+                f = rows[i][c]
+                rows[i] = [x - f * y for x, y in zip(rows[i], rows[r])]
+        piv.append((r, c))
+        r += 1
+    for (ri, c) in piv:
+        if tgt[c] != 0:
+            f = tgt[c]
+            tgt = [x - f * y for x, y in zip(tgt, rows[ri])]
+    return all(x == 0 for x in tgt)
+
+
+def rule_bucket_reduction(fx, rep):
+    """The per-window reduction of the bucket method, for max_bucket = 0..5 and ALL bucket
+    contents: res' = res + sum_i i * B_i and every used bucket is reset to the identity."""
+    from facts import op_place
+    for g, aff in AFFS:
+        p = fx.impl_method('CurveAffine', aff, 'sum_of_products_pippinger')
+        b = fx.body(p) if p else None
+        if b is None:
+            continue
+        o = Origin(b)
+        r = Resolver(b)
+        start = None
+        for bi, t in sorted(b.calls(), key=lambda x: x[0]):
+            c = callee(t)
+            if not (c and c.get('trait') == 'CurveProjective' and c.get('name') == 'add_assign'):
+                continue
+            a1 = strip(o.operand(t['args'][1]))
+            if a1[0] == 'call' and a1[1].get('name') == 'index' and strip(a1[2][1])[0] == 'phi':
+                ref0 = r.operand_referent(t['args'][0])
+                vec = strip(a1[2][0])
+                if ref0 and ref0[0] == 'place' and not ref0[1]['p']:
+                    start = (bi, ref0[1]['l'], a1, strip(a1[2][1])[1])
+                    break
+        inst = '%s:pippinger:window-reduction' % g
+        if start is None:
+            rep.fail('REDUCE', inst, 'the accumulation res += buckets[max_bucket] was not found', fx.fn(p)['span'], construct=p)
+            continue
+        sbb, res_l, idx_term, max_l = start
+        # the buckets vector local: first argument of the index call
+        vec_l = None
+        for bi, t in b.calls():
+            c = callee(t)
+            if c and c.get('name') == 'index' and bi < sbb + 3:
+                pass
+        # find it from the MIR of the index call feeding the start call
+        t0 = b.blocks[sbb]['term']
+        # the index call is the predecessor call whose dest feeds args[1]
+        idx_call = None
+        for bi, t in b.calls():
+            c = callee(t)
+            if c and c.get('name') == 'index' and t.get('target') == sbb:
+                idx_call = t
+        if idx_call is None:
+            rep.fail('REDUCE', inst, 'index call feeding the accumulation not found', fx.fn(p)['span'])
+            continue
+        refv = r.operand_referent(idx_call['args'][0])
+        if not (refv and refv[0] == 'place' and not refv[1]['p']):
+            rep.fail('REDUCE', inst, 'buckets vector not identified', fx.fn(p)['span'])
+            continue
+        vec_l = refv[1]['l']
+        # block where the index call lives is the real start
+        start_bb = next(bi for bi, t in b.calls() if t is idx_call)
+        bad = []
+        n_runs = 0
+        for M in range(0, 6):
+            N = 8
+            Bs = [Lin()] + [Lin.atom('B%d' % i) if i <= M else Lin() for i in range(1, N)]
+            R = Lin.atom('R')
+
+            def tr(I, fr, t, c, pth):
+                return bitlin.transfer(I, fr, t, c, pth)
+            I = exp.Interp(fx, 'add', extra_transfer=tr, stop_on_unknown_switch=True, max_paths=256)
+            fr = exp.Frame(I, b, [])
+            fr.store[res_l] = R
+            fr.store[vec_l] = Agg(Bs, ('vec', 'Vec'))
+            fr.store[max_l] = Int(M)
+            work = [(fr, start_bb, exp.Path())]
+            results = []
+            try:
+                while work:
+                    f_, bb_, p_ = work.pop()
+                    I._run_path(f_, bb_, p_, work, results)
+                    if len(results) + len(work) > 256:
+                        raise exp.Budget('paths')
+            except (exp.NotDerivable, exp.Budget) as e:
+                bad.append('max_bucket=%d: not derivable: %s' % (M, e))
+                continue
+            n_runs += 1
+            want = R
+            for i in range(1, M + 1):
+                want = want.add(Lin({'B%d' % i: i}))
+            for pth, ret, _ in results:
+                if not (isinstance(ret, tuple) and ret[0] == 'stopped'):
+                    bad.append('max_bucket=%d: the reduction leaves the function (%r)' % (M, ret))
+                    continue
+                fr2 = ret[1]
+                cons = []
+                for lab, v in pth.labels:
+                    x = lab
+                    neg = False
+                    while isinstance(x, tuple) and x and x[0] == 'not':
+                        neg = not neg
+                        x = x[1]
+                    if isinstance(x, tuple) and x and x[0] == 'is_zero' and isinstance(x[1], Lin):
+                        taken_true = (v != 0) != neg
+                        if taken_true:
+                            cons.append(x[1])
+                got = fr2.store.get(res_l)
+                if not isinstance(got, Lin):
+                    bad.append('max_bucket=%d: result not a linear form of the buckets (%r)' % (M, got))
+                    continue
+                diff = got.add(want.neg())
+                if diff.t and not _solve_in_span(diff, cons):
+                    bad.append('max_bucket=%d: on the path with %s the window contributes %r, expected sum_i i*B_i' % (M, ['%r=O' % c_ for c_ in cons] or 'no assumptions', got))
+                vec = fr2.store.get(vec_l)
+                if isinstance(vec, Agg):
+                    for i in range(1, M + 1):
+                        cell = vec.items[i]
+                        if isinstance(cell, Lin) and cell.t and not _solve_in_span(cell, cons):
+                            bad.append('max_bucket=%d: bucket %d is left non-empty (%r) for the next window' % (M, i, cell))
+                            break
+        rep.fn(p)
+        rep.check(not bad and n_runs == 6, 'REDUCE', inst,
+                  'for max_bucket = 0..5 and all bucket contents (every path, identity tests taken into account): res += sum_i i*B_i and buckets 1..max are reset',
+                  '; '.join(bad[:3]), fx.fn(p)['span'], construct=p)
+
+
+_old_rules = rules
+
+
+def rules(fx, rep):
+    _old_rules(fx, rep)
+    rule_bucket_reduction(fx, rep)
